@@ -140,6 +140,15 @@ impl Diagnostics {
         Self::default()
     }
 
+    /// Removes the scopes recorded by the diagnostics in this container. This is used for the diagnostics of a file that
+    /// failed to parse: they can name elements whose containers were never completed (and have since been dropped), so
+    /// these elements must not be looked up through the AST.
+    pub(crate) fn clear_scopes(&mut self) {
+        for diagnostic in &mut self.0 {
+            diagnostic.scope = None;
+        }
+    }
+
     pub fn extend(&mut self, other: Diagnostics) {
         self.0.extend(other.0);
     }
